@@ -2194,8 +2194,13 @@ class Interp:
         if fr.yields is None:
             raise Unknown("yield from outside generator evaluation")
         src = self.ev(e.value, fr)
-        for x in self.live_iter(src):
-            self._yield_value(fr, x)
+        try:
+            for x in self.live_iter(src):
+                self._yield_value(fr, x)
+        except _GenClose:
+            if isinstance(src, GenV):
+                self.gen_close(src)        # closing the outer generator closes the one it delegates to first
+            raise
         return src.ret if isinstance(src, GenV) else None
 
     def ex_Call(self, e, fr):
@@ -2428,6 +2433,30 @@ class Interp:
             g.exc = e
             return False
         raise e
+
+    def gen_close(self, g: GenV):
+        """generator.close(): GeneratorExit is raised at the yield the generator is suspended at, so its finally / with blocks run
+        now; a generator that was never started, or has finished, is just marked closed"""
+        if g.done:
+            return
+        if g.thread is None:
+            g.done = True
+            if g.trace is None:
+                g.trace = []
+            return
+        w = self.w
+        g.resume_depth = w.depth
+        w.depth += g.inner_depth
+        g.event = ("close",)
+        g.to_gen.release()
+        g.to_cons.acquire()
+        ev = g.event
+        g.done = True
+        g.thread = None
+        if ev[0] == "yield":
+            raise Raised(w.B.mkexc("RuntimeError", "generator ignored GeneratorExit"))
+        if ev[0] == "raise":
+            raise ev[1]
 
     def run_gen(self, g: GenV):
         """run the generator to its end (for consumers that take everything at once)"""
